@@ -570,3 +570,126 @@ def terminals_decode(text, one=False, pos=False):
         else:
             sents.append([(x, None) for x in toks])
     return sents
+
+
+# ============================================================ grammar files ===
+
+def pmcfg_decode(text):
+    """-> Counter{(func, lin): count} from the PMCFG text format
+    (fun/lin/count triples + shared sN sequences)."""
+    from collections import Counter
+    funs = {}
+    lins = {}
+    counts = {}
+    seqs = {}
+    for raw in text.split('\n'):
+        f = raw.split()
+        if not f:
+            continue
+        if re.match(r'^fun\d+$', f[0]):
+            if f[1] == ':':
+                if f[3] != '<-':
+                    raise ValueError('bad rule line %r' % raw)
+                if f[0] in funs:
+                    raise ValueError('%s defined twice' % f[0])
+                funs[f[0]] = (f[2],) + tuple(f[4:])
+            elif f[1] == '=':
+                lins[f[0]] = f[2:]
+            elif len(f) == 2 and re.match(r'^\d+$', f[1]):
+                counts[f[0]] = int(f[1])
+            else:
+                raise ValueError('bad line %r' % raw)
+        elif re.match(r'^s\d+$', f[0]):
+            if f[1] != '->':
+                raise ValueError('bad sequence line %r' % raw)
+            if f[0] in seqs:
+                raise ValueError('%s defined twice' % f[0])
+            seqs[f[0]] = tuple(tuple(int(x) for x in p.split(':'))
+                               for p in f[2:])
+        else:
+            raise ValueError('bad line %r' % raw)
+    out = Counter()
+    if set(funs) != set(lins) or set(funs) != set(counts):
+        raise ValueError('incomplete function definitions')
+    for k, func in funs.items():
+        lin = tuple(seqs[s] for s in lins[k])
+        out[(func, lin)] += counts[k]
+    return out
+
+
+def lex_decode(text):
+    """LoPar-style lexicon: word TAB (tag count)* -> Counter{(word, tag)}"""
+    from collections import Counter
+    out = Counter()
+    for raw in text.split('\n'):
+        if raw == '':
+            continue
+        word, rest = raw.split('\t', 1)
+        f = rest.split(' ')
+        if len(f) % 2:
+            raise ValueError('odd tag/count list %r' % raw)
+        for i in range(0, len(f), 2):
+            out[(word, f[i])] += int(f[i + 1])
+    return out
+
+
+def rcg_decode(text):
+    """rparse RCG clauses  C:n A2([0][1],[2]) --> B1([0]) C2([1],[2])
+    -> Counter{(func, lin): count}; labels lose their arity suffix."""
+    from collections import Counter
+    out = Counter()
+    for raw in text.split('\n'):
+        if raw.strip() == '':
+            continue
+        f = raw.split()
+        m = re.match(r'^C:(\d+)$', f[0])
+        if not m or f[2] != '-->':
+            raise ValueError('bad clause %r' % raw)
+        count = int(m.group(1))
+
+        def pred(p):
+            mm = re.match(r'^(.*?)(\d+)\((.*)\)$', p)
+            if not mm:
+                raise ValueError('bad predicate %r' % p)
+            args = mm.group(3).split(',')
+            if len(args) != int(mm.group(2)):
+                raise ValueError('arity suffix %s but %d arguments in %r'
+                                 % (mm.group(2), len(args), p))
+            return mm.group(1), [re.findall(r'\[(\d+)\]', a) for a in args]
+        lhs, largs = pred(f[1])
+        rhs = [pred(p) for p in f[3:]]
+        where = {}
+        for i, (lab, args) in enumerate(rhs):
+            for j, a in enumerate(args):
+                if len(a) != 1:
+                    raise ValueError('rhs argument with %d variables' % len(a))
+                if a[0] in where:
+                    raise ValueError('variable %s twice on the rhs' % a[0])
+                where[a[0]] = (i, j)
+        lin = tuple(tuple(where[v] for v in arg) for arg in largs)
+        func = (lhs,) + tuple(lab for lab, _ in rhs)
+        out[(func, lin)] += count
+    return out
+
+
+def lopar_gram_decode(text):
+    from collections import Counter
+    out = Counter()
+    for raw in text.split('\n'):
+        if raw == '':
+            continue
+        f = raw.split(' ')
+        out[tuple(f[1:])] += int(f[0])
+    return out
+
+
+def pairs_decode(text):
+    """lines 'symbol count' -> Counter"""
+    from collections import Counter
+    out = Counter()
+    for raw in text.split('\n'):
+        if raw == '':
+            continue
+        sym, c = raw.rsplit(' ', 1)
+        out[sym] += int(c)
+    return out
